@@ -10,18 +10,19 @@ goroutines at the whole second `nowS`.
 
 Go facts mirrored here:
 * `historyHub.add`: optional delta read (`getLocked` with `Limit 1, Reverse`, which itself
-  refreshes the meta deadline and **creates** a missing stream); then the data deadline
-  `expires[ch] = now + ttl` is (re)written and a queue item is pushed only when the channel had no
-  `expires` entry; then the meta deadline likewise (`opts.HistoryMetaTTL`, or the hub default when
-  that is 0; nothing when the result is ≤ 0); **only then** the version check
+  refreshes the meta deadline and **creates** a missing stream); then the version check
   (`Version > 0`, stream exists, `VersionEpoch == "" || == topVersionEpoch`, `Version <= topVersion`
-  ⇒ skip, returning the current top position); otherwise `stream.Add` (creating the stream with a
-  fresh epoch when missing).
+  ⇒ skip, returning the current top position; since /repo commit e5e52fd9 this precedes the
+  deadline refreshes); then the data deadline `expires[ch] = now + ttl` is (re)written and a queue
+  item is pushed only when the channel had no `expires` entry; then the meta deadline likewise
+  (`opts.HistoryMetaTTL`, or the hub default when that is 0; nothing when the result is ≤ 0); then
+  `stream.Add` (creating the stream with a fresh epoch when missing).
 * `getLocked`: refreshes the meta deadline; a missing stream is created (fresh epoch, offset 0);
   without `Since`: `Limit == 0` ⇒ no publications, else `Get(0, false, limit, reverse)`;
-  with `Since`: forward and `top == since.Offset && since.Epoch == epoch` ⇒ nothing; else
-  `Get(since.Offset ± 1, true, limit, reverse)` with **uint64 wrap-around** of `since.Offset + 1`
-  (at 2^64−1) and of `since.Offset − 1` (at 0).
+  with `Since`: forward and `top == since.Offset && since.Epoch == epoch` ⇒ nothing; forward and
+  `since.Offset == MaxUint64` ⇒ nothing (since /repo commit fbc783cb; before that
+  `since.Offset + 1` wrapped to 0); else `Get(since.Offset ± 1, true, limit, reverse)` with
+  **uint64 wrap-around** of `since.Offset − 1` (at 0).
 * `remove`: `Clear` of an existing stream (top, epoch, version pair, deadlines untouched).
 * sweeps (`expireStreams`, `removeStreams`), each wake-up: skipped when `next…Check` is 0 or in the
   future; otherwise queue items with priority ≤ now are popped: when the map deadline is ≤ the item's
@@ -123,8 +124,9 @@ def Hub.getCore (h : Hub) (ch : String) (f : Filter) : Hub × List (Item Pub) ×
       if f.limit = 0 then (h, [], pos) else (h, s.get 0 false f.limit f.reverse, pos)
     | some since =>
       if !f.reverse && decide (s.top = since.offset) && decide (since.epoch = s.epoch) then (h, [], pos)
+      else if !f.reverse && decide (since.offset = u64 - 1) then (h, [], pos)
       else
-        -- uint64 arithmetic: `since.Offset + 1` wraps at 2^64−1, `since.Offset − 1` wraps at 0
+        -- uint64 arithmetic: `since.Offset − 1` wraps at 0 (`since.Offset + 1` cannot wrap any more)
         let streamOffset :=
           if f.reverse then (if since.offset = 0 then u64 - 1 else since.offset - 1)
           else (since.offset + 1) % u64
@@ -157,7 +159,18 @@ structure AddOut where
   skip : Bool
 deriving Repr, DecidableEq
 
-/-- `historyHub.add` after the delta read and the deadline refreshes: version check, then `Add` -/
+/-- the version check of `historyHub.add`: `some position` = skip -/
+def Hub.versionSkip (h : Hub) (ch : String) (o : PubOpts) : Option Pos :=
+  match (h.chans ch).stream with
+  | some s =>
+    if o.version > 0 ∧ (o.versionEpoch = "" ∨ o.versionEpoch = s.topVersionEpoch) ∧ o.version ≤ s.topVersion then
+      some ⟨s.top, s.epoch⟩
+    else none
+  | none => none
+
+/-- the storing tail of `historyHub.add` (`stream.Add`, creating the stream when missing).  It
+repeats the version check, which can no longer succeed where `Hub.add` calls it (the deadline
+refreshes in between do not touch streams). -/
 def Hub.addCore (h : Hub) (ch : String) (pub : Pub) (o : PubOpts) (prev : Option (Item Pub)) :
     Hub × AddOut :=
   let c := h.chans ch
@@ -181,10 +194,12 @@ def Hub.deltaRead (h : Hub) (ch : String) (o : PubOpts) (nowS : Nat) : Hub × Op
     (r.1, r.2.1.head?)
   else (h, none)
 
-/-- `historyHub.add` -/
+/-- `historyHub.add`: delta read, version check, deadline refreshes, `stream.Add` -/
 def Hub.add (h : Hub) (ch : String) (pub : Pub) (o : PubOpts) (nowS : Nat) : Hub × AddOut :=
   let hp := h.deltaRead ch o nowS
-  ((hp.1.touchExpire ch o.ttl nowS).touchMeta ch o.metaTTL nowS).addCore ch pub o hp.2
+  match hp.1.versionSkip ch o with
+  | some p => (hp.1, ⟨p, none, true⟩)
+  | none => ((hp.1.touchExpire ch o.ttl nowS).touchMeta ch o.metaTTL nowS).addCore ch pub o hp.2
 
 /-- `historyHub.remove` -/
 def Hub.remove (h : Hub) (ch : String) : Hub :=
